@@ -269,12 +269,13 @@ type vf15Case struct {
 	Suites     []vf15Suite
 	MaxNameLen uint8
 	Leading    string // "", or the kind of unusable config placed before the real one in the list
+	Trailing   string // "", or what follows the real config in the list: a second usable config (key rotation) / an unknown version
 	RetryCount int    // reject: number of configs the server offers for retry (>= 1)
 }
 
 func (c vf15Case) String() string {
-	return fmt.Sprintf("%s/%s id=%d suites=%v maxname=%d public=%q secret=%q leading=%q retry=%d seed=%d",
-		c.Ident.Name, c.Mode, c.ConfigID, c.Suites, c.MaxNameLen, c.Public, c.Secret, c.Leading, c.RetryCount, c.Seed)
+	return fmt.Sprintf("%s/%s id=%d suites=%v maxname=%d public=%q secret=%q leading=%q trailing=%q retry=%d seed=%d",
+		c.Ident.Name, c.Mode, c.ConfigID, c.Suites, c.MaxNameLen, c.Public, c.Secret, c.Leading, c.Trailing, c.RetryCount, c.Seed)
 }
 
 const vf15Alnum = "abcdefghijklmnopqrstuvwxyz0123456789"
@@ -331,6 +332,9 @@ func vf15GenCase(rt *rapid.T, idents []vf15Ident) vf15Case {
 		c.MaxNameLen = uint8([]int{0, 1, 254, 255, len(c.Secret), len(c.Secret) - 1, len(c.Secret) + 1}[rapid.IntRange(0, 6).Draw(rt, "maxNameB")])
 	default:
 		c.MaxNameLen = rapid.Byte().Draw(rt, "maxName")
+	}
+	if rapid.IntRange(0, 2).Draw(rt, "trailingKind") == 0 {
+		c.Trailing = []string{"second-valid-config", "unknown-version", "second-valid-config-other-suites"}[rapid.IntRange(0, 2).Draw(rt, "trailing")]
 	}
 	if rapid.IntRange(0, 3).Draw(rt, "leadingKind") == 0 {
 		c.Leading = []string{"unknown-version", "unsupported-kem", "mandatory-extension", "bad-public-name"}[rapid.IntRange(0, 3).Draw(rt, "leading")]
@@ -413,6 +417,23 @@ func vf15Run(st *vfStats, t vfFataler, c vf15Case) {
 		listParts = append(listParts, x.Raw)
 	}
 	listParts = append(listParts, cfg.Raw)
+	// what follows the config the client must pick (the first usable one) must not matter
+	switch c.Trailing {
+	case "second-valid-config":
+		x := vf15NewECHConfig(c.Seed, "trail", c.ConfigID+7, c.Suites, c.MaxNameLen, c.Public)
+		listParts = append(listParts, x.Raw)
+	case "second-valid-config-other-suites":
+		x := vf15NewECHConfig(c.Seed, "trail2", c.ConfigID+9, c.Suites, 0, "other."+c.Public)
+		listParts = append(listParts, x.Raw)
+	case "unknown-version":
+		x := vf15NewECHConfig(c.Seed, "trail", c.ConfigID+7, c.Suites, 0, c.Public)
+		x.Version = 0xfe0a
+		x.marshal()
+		listParts = append(listParts, x.Raw)
+	}
+	if c.Trailing != "" {
+		st.Class("list-trailing:" + c.Trailing)
+	}
 	clientList := vf15ConfigList(listParts...)
 
 	reject := strings.HasPrefix(c.Mode, "reject")
